@@ -3,7 +3,8 @@
 
 Two harness binaries feed one report: common/safelog (Scrub and LogScrubber: delimiter contexts,
 several addresses per line, write splits) and common/event (the String() methods that call Scrub).
-The concurrent-writers clause is checked under the scheduler elsewhere."""
+The concurrent-writers clause is explored under the scheduler (harness c07-writers) without
+partial-order reduction."""
 import glob
 import json
 import os
@@ -12,7 +13,9 @@ from concurrent.futures import ThreadPoolExecutor
 
 sys.path.insert(0, os.path.join(os.path.dirname(os.path.abspath(__file__)), "..", "lib"))
 import enumlib  # noqa: E402
+import sched  # noqa: E402
 import vlib  # noqa: E402
+import safelog_common  # noqa: E402
 
 H = os.path.join(vlib.VERIF, "harness")
 LIB = {os.path.join(vlib.REPO, "verifc07", "lib.go"): os.path.join(H, "safelog", "c07lib", "lib.go")}
@@ -67,12 +70,24 @@ def main():
         enumlib.report(rep, build_and_run(tier), RULE)
     except vlib.EngineError as e:
         rep.engine_errors.append(str(e))
+    # concurrent writers: scheduler, every interleaving of the synchronisation operations up to a preemption bound
+    try:
+        binary = safelog_common.build()
+        q = tier == "quick"
+        passes = [{"harness": "c07-writers", "cfg": {"writers": "2"}, "bound": 3 if q else 5, "por": False, "cache": False, "budget_s": 25 if q else 200,
+                   "label": "2 goroutines writing whole log lines (6 scripts each: with/without addresses, two lines in one Write, two Writes) through one LogScrubber into a sink that can be descheduled before it consumes the bytes: all interleavings up to the preemption bound, no reduction"},
+                  {"harness": "c07-writers", "cfg": {"writers": "3"}, "bound": 2 if q else 3, "por": False, "cache": False, "budget_s": 25 if q else 300,
+                   "label": "3 writers, same scripts"}]
+        summary, tot, samples, exh = sched.run_passes(rep, binary, passes, 60 if q else 520)
+        rep.coverage["concurrent_writers"] = {"passes": summary, "executions": tot["executions"], "transitions": tot["transitions"], "exhaustive_within_bound": exh}
+    except vlib.EngineError as e:
+        rep.engine_errors.append(str(e))
     rep.assumptions += [
         "address forms are those of the stated grammar that net.ParseIP / net.SplitHostPort accept, plus IP.String, netip.Addr.String and TCPAddr.String of the same IPs; zones appear only as the right context '%'",
         "delimiter contexts are the byte next to the address: '.' and ':' on the left and ':' on the right (other than ': ' and ':\\n') are not enumerated because they change what the address token is; an address ending in ':' is not put before ': '",
         "': ' as right delimiter is included although the statement's wording exempts ':' (it is the form Go's own errors print: 'dial tcp 1.2.3.4:80: ...')",
         "the oracle accepts any output in which the injected IP can no longer be parsed back (stray ':' or port digits, partial placeholders); preservation of the surrounding text is not checked",
-        "concurrent writers are covered by the scheduler-based harness, not here",
+        "concurrent writers: each writer hands whole lines to Write (as log.Logger does); the oracle is: every sink write is a sequence of complete lines, no injected address and no byte of a caller's reused buffer reaches the sink, and the multiset of lines received equals the scrubbed lines written",
     ]
     rep.finish()
 
